@@ -16,8 +16,7 @@ def gen_template(rng, cli):
     t = rng.choice(["", " "]).join(parts) if rng.random() < 0.3 else " ".join(parts)
     if not cli:
         # the config layer strips quote characters and blanks at both ends of a string (finding S13, property C18): keep them inside
-        t = "m" + t + "m"
-        t = t.replace("OLD", "old").replace("NEW", "new")
+        t = "m " + t + " m"
     # the shorthand's word boundary next to a non-ASCII symbol depends on Unicode categories the spec does not model: keep them apart
     import re
     t = re.sub(r"([^\x00-\x7f])(OLD|NEW)", r"\1 \2", t)
